@@ -195,13 +195,23 @@ theorem dial_reaches_own_id (D : DialParams) (hD : D.Good) (id other : Nat) (b :
 /-- **Unmatched dials do not queue behind one another**: however many other dials are waiting, a dial returns within one
 window of its own start (so a fresh pair issued meanwhile is not starved past its conn-info's expiry). -/
 theorem dial_not_serialised (D : DialParams) (hD : D.Good) (window k : Nat) : dialReturnsBy D window k = window := by
-  simp [dialReturnsBy, hD.2]
+  simp [dialReturnsBy, hD.2.1]
 
 /-- a broker-wide mutex held across the wait: the third of three unmatched dials returns after 15 s -/
-theorem serialised_dials_witness : dialReturnsBy ⟨true, false⟩ 5000 2 = 15000 := by decide
+theorem serialised_dials_witness : dialReturnsBy ⟨true, false, true, true⟩ 5000 2 = 15000 := by decide
 
 /-- appending the per-id dialer onto the caller's slice: two concurrent dials with a shared slice, and the connection
 for id 101 is dialled to id 125's listener -/
-theorem shared_opts_witness : dialReaches ⟨false, true⟩ 101 125 true = 125 := by decide
+theorem shared_opts_witness : dialReaches ⟨false, true, true, true⟩ 101 125 true = 125 := by decide
+
+/-- **The two directions do not disturb each other**: accepting a number on one side leaves that side's dial state for
+the same number (the other direction's ID) exactly as it was. -/
+theorem accept_leaves_dial_state (D : DialParams) (hD : D.Good) (n m : Nat) (filed : Bool) :
+    dialStateAfterAccept D n m filed = filed := by
+  simp [dialStateAfterAccept, hD.2.2.1]
+
+/-- Witness: an accept that "tidies up" what is filed under its number throws away the connection info the other
+direction's dial of the same number needs -/
+theorem accept_clears_witness : dialStateAfterAccept ⟨true, true, false, true⟩ 7 7 true = false := by decide
 
 end GoPlugin.Props.C07
